@@ -112,8 +112,11 @@ static void *ledger_alloc(size_t n) {
     E.last_alloc_n = n;
     long seq = E.alloc_seq++;
     if (E.fail_at == seq) { E.last_alloc_p = NULL; return NULL; }
-    void *p = malloc(n ? n : 1);
+    /* blocks sit at addresses that are 8 but not 16 modulo 16 (what a pool allocator with an 8-byte header hands out; every member of
+     * the seed structure needs 8 at most), so a caller that rounds the pointer shows */
+    char *raw = malloc((n ? n : 1) + 24); void *p = raw + 8;
     memset(p, E.alloc_fill_set ? E.alloc_fill : 0xDD, n);   /* fresh memory is never zero (unless a case asks for a specific fill) */
+    if (E.alloc_recycle && E.recycled_n == n && n <= sizeof E.recycled) memcpy(p, E.recycled, n);      /* ... or, on request, what the last released block of this size held when it was released */
     if (E.nlive >= MAXLIVE) { fprintf(stderr, "harness: ledger full\n"); abort(); }
     E.live[E.nlive].p = p; E.live[E.nlive].n = n; E.live[E.nlive].wiped = 0; E.nlive++;
     E.last_alloc_p = p;
@@ -126,8 +129,9 @@ static void ledger_free(void *p) {
         for (size_t j = 0; j < E.live[i].n; j++) dirty |= q[j];
         if (dirty) E.err_free_dirty++;
         if (!E.live[i].wiped) E.err_free_unwiped++;
+        if (E.live[i].n <= sizeof E.recycled) { memcpy(E.recycled, p, E.live[i].n); E.recycled_n = E.live[i].n; }
         E.live[i] = E.live[--E.nlive];
-        free(p);
+        free((char *)p - 8);
         return;
     }
     E.err_foreign_free++;               /* unknown or repeated pointer: do not touch it */
@@ -173,7 +177,7 @@ void env_init(void) {
     env_clear_log();
 }
 int ledger_live(void) { return E.nlive; }
-void ledger_drop_all(void) { for (int i = 0; i < E.nlive; i++) free(E.live[i].p); E.nlive = 0; }
+void ledger_drop_all(void) { for (int i = 0; i < E.nlive; i++) free((char *)E.live[i].p - 8); E.nlive = 0; }
 
 /* ------------------------------------------------------------------ observation */
 static const unsigned OBS_HI_MASKS[4] = { 0xFFFFFFFFu, 0x10, 0x18, 0xF9 };
